@@ -75,6 +75,16 @@ ChainInsts ==
     rty |-> WFloat, allow |-> {}]
      : m \in Masks(3), op \in {"+", "*"}, g \in {"a", "b"}}
 
+\* single float operators on operands whose exact result is not representable (5.0 / 3.0, 3.0 / 10.0, 49.0 / 49.0,
+\* 0.1 + 0.2, 1.1 * 1.1, 2.0 ** 0.5): a rewriting of the operator (reciprocal multiplication, fused forms ...) shows
+\* in the last bit; all literal/hidden twins of a pair form one group
+FPairs == << <<FBits("4617315517961601024"), FBits("4613937818241073152")>>, <<FBits("4613937818241073152"), FBits("4621819117588971520")>>, <<FBits("4632092954238910464"), FBits("4632092954238910464")>>,
+            <<FBits("4591870180066957722"), FBits("4596373779694328218")>>, <<FBits("4607632778762754458"), FBits("4607632778762754458")>>, <<FBits("4611686018427387904"), FBits("4602678819172646912")>> >>
+FOpInsts ==
+  {[name |-> "fop" \o op \o ToString(pi) \o "-" \o MaskStr(m), group |-> "fop" \o op \o ToString(pi),
+    e |-> Bin(op, ArgF(FPairs[pi][1], m[1], 1), ArgF(FPairs[pi][2], m[2], 2)), rty |-> WFloat, allow |-> {}]
+     : m \in Masks(2), op \in {"+", "-", "*", "/", "**"}, pi \in 1..Len(FPairs)}
+
 UnaryInsts ==
   {Inst("neg" \o ToString(n) \o MaskStr(m), NegE(ArgT(IntV(n), m[1], 1)), WInt, {}) : n \in {0, 5, -3}, m \in Masks(1)}
   \cup {Inst("not" \o ToString(n) \o MaskStr(m), NotE(ArgT(IntV(n), m[1], 1)), WInt, {}) : n \in {0, 5, -1}, m \in Masks(1)}
@@ -185,7 +195,7 @@ InCtx(t, ctx) ==
 ExprInsts == BinInsts \cup FloatInsts \cup UnaryInsts \cup LogicInsts \cup IndexInsts \cup DataInsts
 ExprCases == {[name |-> t.name \o "/" \o ctx, prog |-> InCtx(t, ctx), allow |-> t.allow, allowx |-> {}, group |-> ""] : t \in ExprInsts, ctx \in Contexts}
 ChainCases == {[name |-> t.name \o "/" \o ctx, prog |-> InCtx(t, ctx), allow |-> {}, allowx |-> {}, group |-> t.group \o "/" \o ctx]
-                 : t \in ChainInsts, ctx \in {"top", "fn"}}
+                 : t \in ChainInsts \cup FOpInsts, ctx \in {"top", "fn"}}
 
 CaseSeq0 == SetToSeq(ExprCases) \o SetToSeq(CtlCases)
 ChainSeq == SetToSeq(ChainCases)
